@@ -15,6 +15,7 @@ import (
 	"flag"
 	"fmt"
 	"os"
+	"os/exec"
 	"path/filepath"
 	"sort"
 	"strconv"
@@ -56,6 +57,8 @@ type Run struct {
 	N      int
 	OutDir string
 	Replay string
+	// parallel mode: this process is worker Worker of Workers (Workers <= 1: single process)
+	Worker, Workers int
 
 	mu       sync.Mutex
 	ops      *bufio.Writer
@@ -71,8 +74,18 @@ type Run struct {
 }
 
 // Start parses the common flags and opens the output files.
-func Start(prop string) *Run {
+func Start(prop string) *Run { return StartParallel(prop, 1) }
+
+// Mine says whether case number i is to be executed by this worker process.
+func (r *Run) Mine(i int) bool { return r.Workers <= 1 || i%r.Workers == r.Worker }
+
+// StartParallel is Start for harnesses whose cases must run in separate processes to run concurrently
+// (process-global hooks): unless it is itself a worker, the process re-executes itself `workers` times with
+// -worker k, waits, merges the workers' output files into the output directory and exits.
+func StartParallel(prop string, workers int) *Run {
 	r := &Run{Prop: prop, distinct: map[string]bool{}, dist: map[string]int{}, extra: map[string]interface{}{}}
+	flag.IntVar(&r.Worker, "worker", -1, "internal: worker index")
+	flag.IntVar(&r.Workers, "workers", workers, "number of worker processes")
 	seed := flag.Uint64("seed", 1, "PRNG seed")
 	flag.StringVar(&r.Tier, "tier", "quick", "quick|thorough")
 	flag.IntVar(&r.N, "n", 0, "number of generated cases (0 = tier default)")
@@ -85,6 +98,10 @@ func Start(prop string) *Run {
 		os.Exit(2)
 	}
 	_ = os.MkdirAll(r.OutDir, 0o755)
+	if r.Workers > 1 && r.Worker < 0 {
+		r.runWorkers()
+		os.Exit(0)
+	}
 	open := func(n string) *bufio.Writer {
 		f, err := os.Create(filepath.Join(r.OutDir, n))
 		if err != nil {
@@ -205,6 +222,119 @@ func (r *Run) Finish(rule string) {
 	}
 	b, _ := json.MarshalIndent(st, "", " ")
 	_ = os.WriteFile(filepath.Join(r.OutDir, "stats.json"), b, 0o644)
+	dk := make([]string, 0, len(r.distinct))
+	for k := range r.distinct {
+		dk = append(dk, k)
+	}
+	_ = os.WriteFile(filepath.Join(r.OutDir, "distinct.txt"), []byte(strings.Join(dk, "\n")), 0o644)
+}
+
+func (r *Run) runWorkers() {
+	var wg sync.WaitGroup
+	dirs := make([]string, r.Workers)
+	fails := make([]error, r.Workers)
+	for k := 0; k < r.Workers; k++ {
+		dirs[k] = filepath.Join(r.OutDir, fmt.Sprintf("w%d", k))
+		args := []string{}
+		skip := false
+		for _, a := range os.Args[1:] {
+			if skip {
+				skip = false
+				continue
+			}
+			if a == "-out" || a == "--out" {
+				skip = true
+				continue
+			}
+			if strings.HasPrefix(a, "-out=") || strings.HasPrefix(a, "--out=") {
+				continue
+			}
+			args = append(args, a)
+		}
+		args = append([]string{"-out", dirs[k], "-worker", strconv.Itoa(k), "-workers", strconv.Itoa(r.Workers)}, args...)
+		wg.Add(1)
+		go func(k int, args []string) {
+			defer wg.Done()
+			cmd := exec.Command(os.Args[0], args...)
+			cmd.Stdout, cmd.Stderr = os.Stdout, os.Stderr
+			fails[k] = cmd.Run()
+		}(k, args)
+	}
+	wg.Wait()
+	for k, e := range fails {
+		if e != nil {
+			fmt.Fprintf(os.Stderr, "worker %d failed: %v\n", k, e)
+			os.Exit(1)
+		}
+	}
+	cat := func(name string) {
+		out, _ := os.Create(filepath.Join(r.OutDir, name))
+		defer out.Close()
+		for _, d := range dirs {
+			b, _ := os.ReadFile(filepath.Join(d, name))
+			out.Write(b)
+		}
+	}
+	cat("ops.txt")
+	cat("impl.txt")
+	cat("io.jsonl")
+	merged := map[string]interface{}{}
+	dist := map[string]int{}
+	distinct := map[string]bool{}
+	var samples []interface{}
+	evals, iof := 0, 0
+	for _, d := range dirs {
+		var st map[string]interface{}
+		b, _ := os.ReadFile(filepath.Join(d, "stats.json"))
+		if json.Unmarshal(b, &st) != nil {
+			continue
+		}
+		for k, v := range st {
+			switch k {
+			case "evaluations":
+				evals += int(v.(float64))
+			case "io_failures":
+				iof += int(v.(float64))
+			case "distinct_nontrivial":
+			case "distribution":
+				for b, n := range v.(map[string]interface{}) {
+					dist[b] += int(n.(float64))
+				}
+			case "samples":
+				l := v.([]interface{})
+				if len(l) > 2 {
+					l = l[:2]
+				}
+				samples = append(samples, l...)
+			default:
+				if f, ok := v.(float64); ok && k != "seed" {
+					if prev, ok := merged[k].(float64); ok {
+						merged[k] = prev + f
+					} else {
+						merged[k] = f
+					}
+				} else {
+					merged[k] = v
+				}
+			}
+		}
+		db, _ := os.ReadFile(filepath.Join(d, "distinct.txt"))
+		for _, h := range strings.Split(string(db), "\n") {
+			if h != "" {
+				distinct[h] = true
+			}
+		}
+	}
+	if len(samples) > 12 {
+		samples = samples[:12]
+	}
+	merged["evaluations"], merged["io_failures"], merged["distinct_nontrivial"] = evals, iof, len(distinct)
+	merged["distribution"], merged["samples"], merged["workers"] = dist, samples, r.Workers
+	b, _ := json.MarshalIndent(merged, "", " ")
+	_ = os.WriteFile(filepath.Join(r.OutDir, "stats.json"), b, 0o644)
+	for _, d := range dirs {
+		os.RemoveAll(d)
+	}
 }
 
 // helpers for canonical text
